@@ -311,6 +311,10 @@ fn fold_stats(out: &mut RunOut, st: &CoreStats, tag: &str) {
     out.count("fork_join_tasks", st.tasks);
     out.count("regions_with_ge2_tasks", st.regions_ge2);
     out.count("non_identity_orders", st.non_identity_orders);
+    out.count("pool_preemptions", st.preemptions);
+    if st.preemptions > 0 {
+        out.probe("pool_run_with_preemption");
+    }
     for (k, v) in &st.probes {
         *out.probes.entry(k.clone()).or_insert(0) += v;
     }
@@ -561,8 +565,31 @@ impl C05 {
             core.want_steps = true;
             // observe every step of the sequential run and of the first parallel run
             core.observer = if tag != "par2" { Some(Box::new(StepObs { budget: 1 << 21 })) } else { None };
+            if tag == "par2" && core.dec.coin("pool", 1, 2) {
+                // second parallel execution: the simulated worker pool (W real threads, one
+                // running at a time, decider-chosen switches at task boundaries and seams)
+                // (small pools mostly: interleavings need few workers, threads cost time; the
+                // full 1..16 range is covered by the sequentialised model and now and then here)
+                let wp = match core.dec.choose("poolW.kind", 8) {
+                    0 => w.max(2),
+                    1 => 2 + core.dec.choose("poolW.big", 15),
+                    _ => 2 + core.dec.choose("poolW", 3),
+                };
+                core.workers = wp;
+                core.pool_workers = wp;
+                core.preempt_16 = *core.dec.pick("preempt", &[0usize, 2, 4, 8, 16]);
+            }
             core.step_budget = 400_000;
             core.draw_budget = 50_000_000;
+            let wdesc = if core.pool_workers > 0 {
+                out.probe("execution.simulated_worker_pool");
+                format!("simulated pool of {} worker threads, preemption {}/16", core.pool_workers, core.preempt_16)
+            } else if parallel {
+                out.probe("execution.sequentialised_fork_join");
+                format!("sequentialised fork-join, W={}", core.workers)
+            } else {
+                "sequential".to_string()
+            };
             let g2 = g.clone();
             let cfg = sc.cfg.clone();
             let (res, core) = with_sim(core, move || run_cfg(&g2, &cfg, parallel, false));
@@ -597,8 +624,8 @@ impl C05 {
                             Violation::new(
                                 "wrong_scalar",
                                 format!(
-                                    "{} mode (W={}), driver {}, simp {}, split {}, {:?}: decomposer returned {} but the diagram denotes {}",
-                                    tag, w, sc.cfg.driver.name(), sc.cfg.simp, sc.cfg.split, sc.cfg.hist, got.show(), exp.show()
+                                    "{} mode ({}), driver {}, simp {}, split {}, {:?}: decomposer returned {} but the diagram denotes {}",
+                                    tag, wdesc, sc.cfg.driver.name(), sc.cfg.simp, sc.cfg.split, sc.cfg.hist, got.show(), exp.show()
                                 ),
                             )
                             .with("mode", if parallel { "parallel" } else { "sequential" })
@@ -707,7 +734,7 @@ impl Property for C05 {
         ]
     }
     fn real_vs_stub(&self) -> Value {
-        json!({"real": ["Decomposer (all entry points)", "all five drivers", "every replace_* constructor", "simplify.rs (clifford_simp/full_simp between steps)", "both graph backends", "Scalar4 arithmetic", "rand algorithms consuming the entropy (random_range, shuffle, choose_multiple)"], "stubbed": ["rayon's scheduler: replaced by the decider-driven fork-join model of DESIGN §2.3 (tasks run one at a time in decider order on decider-chosen virtual workers)", "entropy behind rand::rng(): decider draws", "RandomState keys of the dynamic-T driver's maps: decider draws"]})
+        json!({"real": ["Decomposer (all entry points)", "all five drivers", "every replace_* constructor", "simplify.rs (clifford_simp/full_simp between steps)", "both graph backends", "Scalar4 arithmetic", "rand algorithms consuming the entropy (random_range, shuffle, choose_multiple)"], "stubbed": ["rayon's scheduler: replaced by two decider-driven models: the sequentialised fork-join model of DESIGN §2.3 (whole tasks in decider order on one thread) and the simulated worker pool of §9.8 (W real OS threads, one running at a time, decider-chosen switches at task start/end and at seams)", "entropy behind rand::rng(): decider draws", "RandomState keys of the dynamic-T driver's maps: decider draws"]})
     }
     fn sub_batches(&self) -> Vec<SubBatch> {
         vec![
@@ -734,6 +761,8 @@ impl Property for C05 {
             "split.3components",
             "nested_regions_depth_ge3",
             "tasks_on_ge2_workers",
+            "execution.simulated_worker_pool",
+            "pool_run_with_preemption",
         ]
     }
 
